@@ -637,7 +637,7 @@ def verify_contract(world, c, timeout_ms=10000, only_case=None, budget_s=None):
                     if key in seen:
                         continue
                     seen.add(key)
-                    r, info, dt = prove(ob.pc, goal, timeout_ms)
+                    r, info, dt = prove(ob.pc, goal, c.decl.get('solver_timeout_ms') or timeout_ms)
                     res.solver_s += dt
                     counter['post'] += 1
                     rec = {'name': '%s%s#%d' % (case_tag, ob.name, counter['post']), 'kind': ob.kind, 's': round(dt, 3),
